@@ -20,8 +20,9 @@ package deps
 //@ trusted func json.Marshal(v interface{}) (data []byte, err error)
 //@   ensures imp(isNil(err), len(data) >= 1 && ref(data) != 0)
 //@   ensures imp(!isNil(err), !typeIs(err, "*res.Error"))
+//@ # Unmarshal writes only through its target; fields absent from the JSON text keep their value
 //@ trusted func json.Unmarshal(data []byte, v interface{}) (err error)
-//@   modifies all
+//@   modifies *v, alloc
 //@   ensures imp(!isNil(err), !typeIs(err, "*res.Error"))
 //@ trusted func strconv.FormatInt(i int64, base int) (s string)
 //@   ensures len(s) >= 1
